@@ -6,6 +6,7 @@ import (
 	sdk "github.com/cosmos/cosmos-sdk/types"
 
 	auctionsV2types "github.com/comdex-official/comdex/x/auctionsV2/types"
+	lendtypes "github.com/comdex-official/comdex/x/lend/types"
 	liqV2types "github.com/comdex-official/comdex/x/liquidationsV2/types"
 
 	"vh/sim"
@@ -93,8 +94,197 @@ func (w *world) auctions(p params) {
 	}
 }
 
+// lendFull: the pool's asset 2 is lent out completely (utilisation 1): one lender of asset 2, borrowers take all of it.
+func (w *world) lendFull(p params) {
+	a1, a2 := w.asset["uasset1"], w.asset["uasset2"]
+	cm := w.app["commodo"]
+	w.deliver(lendtypes.NewMsgLend(w.user("u1"), a2, coin("uasset2", 1000000000), 1, cm), "lend a2")
+	w.deliver(lendtypes.NewMsgLend(w.user("u2"), a1, coin("uasset1", 10000000000), 1, cm), "lend a1")
+	w.deliver(lendtypes.NewMsgLend(w.user("u3"), a1, coin("uasset1", 10000000000), 1, cm), "lend a1")
+	r := w.try(lendtypes.NewMsgBorrow(w.user("u2"), 2, 1, false, coin("ucasset1", 1000000000), coin("uasset2", 600000000)))
+	w.note("borrow 600 ok=%v %s", r.OK, short(r.Err))
+	r = w.try(lendtypes.NewMsgBorrow(w.user("u3"), 3, 1, false, coin("ucasset1", 1000000000), coin("uasset2", 400000000)))
+	w.note("borrow 400 (rest of the pool) ok=%v %s", r.OK, short(r.Err))
+	u, err := w.App.LendKeeper.GetUtilisationRatioByPoolIDAndAssetID(w.Ctx, 1, a2)
+	w.note("utilisation=%s err=%v", u, err)
+}
+
+// english: harbor's collector is configured for surplus (or debt) auctions of its debt asset; the draw-down fees of the
+// vaults are the net fees; the real begin blocker starts the English auction; a bidder bids.
+func (w *world) english(p params, surplus bool, withMint bool) {
+	w.base("0.5")
+	if withMint {
+		w.mintGov()
+	}
+	w.vaults(p.NVaults)
+	if surplus {
+		w.collector(true, false, 5000, 1000, 4000)
+	} else {
+		w.collector(false, true, 100000000, 50000000, 200000)
+	}
+	w.mustBlock(6 * time.Second)
+	aucs := w.App.NewaucKeeper.GetAuctions(w.Ctx)
+	w.note("auctions=%d", len(aucs))
+	for _, a := range aucs {
+		if !a.AuctionType {
+			bid := coin("uharbor", p.Bid)
+			if !surplus { // a debt auction is bid in the offered (collateral) token: how little of it the bidder accepts
+				bid = sdk.NewCoin(a.CollateralToken.Denom, a.CollateralToken.Amount.MulRaw(9).QuoRaw(10))
+			}
+			r := w.try(auctionsV2types.NewMsgPlaceMarketBid(w.user("u4"), a.AuctionId, bid))
+			w.note("english bid ok=%v %s", r.OK, short(r.Err))
+		}
+	}
+}
+
+// auctionsEsm: running Dutch auctions of harbor vaults, then harbor's emergency shutdown is executed.
+func (w *world) auctionsEsm(p params) {
+	w.base("0.5")
+	w.mintGov()
+	w.esmParams(3600)
+	w.vaults(p.NVaults + 1)
+	w.mustBlock(6 * time.Second)
+	w.setPrice(w.asset["uasset2"], 1600000, true) // only the most indebted vaults become unsafe
+	w.mustBlock(6 * time.Second)
+	w.note("auctions=%d vaults=%d", len(w.App.NewaucKeeper.GetAuctions(w.Ctx)), len(w.App.VaultKeeper.GetVaults(w.Ctx)))
+	w.esmExecute()
+}
+
+// v1auctions: the V1 liquidation begin blocker (called directly: module.go does not wire it) seized the unsafe vaults.
+func (w *world) v1auctions(p params) {
+	w.base("0.5")
+	w.v1enable()
+	w.vaults(p.NVaults)
+	w.mustBlock(6 * time.Second)
+	w.dropPrices(p)
+	w.advance(6 * time.Second)
+	hookByName("liqv1").fn(w, w.Ctx)
+	w.note("v1 locked vaults=%d v1 dutch auctions=%d", len(w.App.LiquidationKeeper.GetLockedVaults(w.Ctx)), len(w.App.AuctionKeeper.GetDutchAuctions(w.Ctx, w.app["harbor"])))
+}
+
+// v1esm: V1 Dutch auctions are running when harbor's emergency shutdown is executed; the auctions run out.
+func (w *world) v1esm(p params) {
+	w.base("0.5")
+	w.mintGov()
+	w.esmParams(3600)
+	w.v1enable()
+	w.vaults(p.NVaults)
+	w.mustBlock(6 * time.Second)
+	w.dropPrices(p)
+	w.advance(6 * time.Second)
+	hookByName("liqv1").fn(w, w.Ctx)
+	w.esmExecute()
+	w.mustBlock(6 * time.Second) // esm begin blocker takes the price snapshot
+	w.advance(400 * time.Second)
+	w.note("v1 dutch auctions=%d vaults=%d counter=%d", len(w.App.AuctionKeeper.GetDutchAuctions(w.Ctx, w.app["harbor"])),
+		len(w.App.VaultKeeper.GetVaults(w.Ctx)), w.App.VaultKeeper.GetLengthOfVault(w.Ctx))
+}
+
 func stateBuilders() []stateBuilder {
 	return []stateBuilder{
+		{"v1_esm_restart", func(w *world, p params) []string {
+			w.v1esm(p)
+			return []string{"aucv1"}
+		}},
+		{"v1_esm_after_restart", func(w *world, p params) []string {
+			w.v1esm(p)
+			hookByName("aucv1").fn(w, w.Ctx)
+			w.note("after V1 auction begin blocker: v1 dutch auctions=%d vaults=%d counter=%d", len(w.App.AuctionKeeper.GetDutchAuctions(w.Ctx, w.app["harbor"])),
+				len(w.App.VaultKeeper.GetVaults(w.Ctx)), w.App.VaultKeeper.GetLengthOfVault(w.Ctx))
+			w.advance(6 * time.Second)
+			return []string{"begin", "liqv1"}
+		}},
+		{"english_surplus_close", func(w *world, p params) []string {
+			w.english(p, true, true)
+			w.advance(3700 * time.Second)
+			return []string{"begin"}
+		}},
+		{"english_surplus_close_nomint", func(w *world, p params) []string {
+			// the app never did its genesis minting: no token-mint data, burning the bid fails in the middle of the close step
+			w.english(p, true, false)
+			w.advance(3700 * time.Second)
+			return []string{"begin"}
+		}},
+		{"english_debt_close", func(w *world, p params) []string {
+			w.english(p, false, true)
+			w.advance(3700 * time.Second)
+			return []string{"begin"}
+		}},
+		{"english_debt_close_nomint", func(w *world, p params) []string {
+			w.english(p, false, false)
+			w.advance(3700 * time.Second)
+			return []string{"begin"}
+		}},
+		{"surplus_collector_empty", func(w *world, p params) []string {
+			// surplus auctions switched on although the collector account holds nothing for the asset: net fees are
+			// recorded (legitimately, by a previous configuration) but the coins were paid out
+			w.base("0.5")
+			w.mintGov()
+			w.vaults(p.NVaults)
+			w.collector(true, false, 5000, 1000, 4000000)
+			w.advance(6 * time.Second)
+			return []string{"begin"}
+		}},
+		{"esm_executed", func(w *world, p params) []string {
+			w.auctionsEsm(p)
+			w.advance(6 * time.Second)
+			return []string{"begin"}
+		}},
+		{"esm_cooloff_over", func(w *world, p params) []string {
+			w.auctionsEsm(p)
+			w.mustBlock(6 * time.Second)
+			w.advance(3700 * time.Second)
+			return []string{"begin"}
+		}},
+		{"liq_pending", func(w *world, p params) []string {
+			w.base("0.5")
+			w.liquidity(30 * time.Second)
+			w.advance(0)
+			return []string{"end", "begin"}
+		}},
+		{"liq_expired", func(w *world, p params) []string {
+			w.base("0.5")
+			w.liquidity(10 * time.Second)
+			w.mustBlock(6 * time.Second)
+			w.mustBlock(6 * time.Second)
+			w.advance(0)
+			return []string{"end", "begin"}
+		}},
+		{"v1_unsafe", func(w *world, p params) []string {
+			w.base("0.5")
+			w.v1enable()
+			w.vaults(p.NVaults)
+			w.mustBlock(6 * time.Second)
+			w.dropPrices(p)
+			w.advance(6 * time.Second)
+			return []string{"liqv1", "aucv1"}
+		}},
+		{"v1_auctions", func(w *world, p params) []string {
+			w.v1auctions(p)
+			w.advance(time.Duration(p.Gap) * time.Second)
+			return []string{"aucv1", "liqv1", "begin"}
+		}},
+		{"v1_auctions_expired", func(w *world, p params) []string {
+			w.v1auctions(p)
+			w.advance(400 * time.Second)
+			return []string{"aucv1"}
+		}},
+		{"lend_full", func(w *world, p params) []string {
+			w.base("0.5")
+			w.lendFull(p)
+			w.mustBlock(6 * time.Second)
+			w.dropPrices(p)
+			w.advance(time.Duration(p.Gap) * time.Second)
+			return []string{"begin"}
+		}},
+		{"lend_full_uopt1", func(w *world, p params) []string {
+			// governance configured optimal utilisation 1 for the borrowed asset (accepted by AssetRatesParams.Validate)
+			w.base("1.0")
+			w.lendFull(p)
+			w.mustBlock(6 * time.Second)
+			w.advance(time.Duration(p.Gap) * time.Second)
+			return []string{"begin"}
+		}},
 		{"healthy", func(w *world, p params) []string {
 			w.base("0.5")
 			w.lending(p.NBorrows)
